@@ -111,8 +111,8 @@ def Hand (D : Prop) (st : St) (v : String) : Prop :=
 
 theorem serve_cases (st : St) (r : Req) :
     (serve st r = (st, .error .ctx)) ∨
-    (∃ rest, st.script = .fail :: rest ∧
-       serve st r = ({ st with log := .req r :: st.log, script := rest }, .error .transport)) ∨
+    (∃ rest c e, scriptNonces st.script = scriptNonces rest ∧ (e = .transport ∨ e = .ctx) ∧
+       serve st r = ({ st with log := .req r :: st.log, script := rest, cancelled := c }, .error e)) ∨
     (st.script = [] ∧ serve st r = ({ st with log := .rep defaultResp :: .req r :: st.log }, .ok defaultResp)) ∨
     (∃ p rest, st.script = .resp p :: rest ∧
        serve st r = ({ st with log := .rep p :: .req r :: st.log, script := rest }, .ok p)) := by
@@ -124,7 +124,8 @@ theorem serve_cases (st : St) (r : Req) :
     | nil => simp
     | cons x rest =>
       cases x with
-      | fail => simp
+      | fail => exact Or.inr (Or.inl ⟨rest, false, .transport, by simp [scriptNonces], Or.inl rfl, by simp [hc]⟩)
+      | cancel => exact Or.inr (Or.inl ⟨rest, true, .ctx, by simp [scriptNonces], Or.inr rfl, by simp⟩)
       | resp p => exact Or.inr (Or.inr (Or.inr ⟨p, rest, rfl, by simp⟩))
 
 theorem issuedOf_req (r : Req) (l : List Ev) : issuedOf (.req r :: l) = issuedOf l := rfl
@@ -155,15 +156,14 @@ theorem serve_inv (D : Prop) (st : St) (r : Req)
       intro x hx
       simp only [List.mem_cons, not_or]
       exact ⟨fun e => hnp hd (e ▸ hx), hpu x hx⟩
-  rcases serve_cases st r with h | ⟨rest, hs, h⟩ | ⟨hs, h⟩ | ⟨p, rest, hs, h⟩
+  rcases serve_cases st r with h | ⟨rest, c, e, hs, _, h⟩ | ⟨hs, h⟩ | ⟨p, rest, hs, h⟩
   · rw [h]; exact ⟨hi, rfl, fun p hp => by simp at hp⟩
   · rw [h]
     refine ⟨⟨fun v hv => hi.pool_issued v hv, wf_req, hi.nodup, hi.le_one, ?_⟩, rfl, fun p hp => by simp at hp⟩
     intro hd
     obtain ⟨⟨hf1, hf2⟩, _, _⟩ := hi.fresh hd
     rw [hs] at hf1 hf2
-    exact ⟨⟨by simpa [scriptNonces] using hf1, fun v hv => by simpa [scriptNonces, issuedOf] using hf2 v (by simpa [scriptNonces] using hv)⟩,
-      (used_req hd).2, (used_req hd).1⟩
+    exact ⟨⟨hf1, fun v hv => hf2 v hv⟩, (used_req hd).2, (used_req hd).1⟩
   · rw [h]
     refine ⟨⟨fun v hv => mem_issuedOf_rep _ _ _ (hi.pool_issued v hv), wf_req, hi.nodup, hi.le_one, ?_⟩, rfl, ?_⟩
     · intro hd
@@ -482,7 +482,7 @@ theorem getLoop_inv (D : Prop) (cfg : Cfg) (url : String) (ok : List Nat) (n : N
 /-! ### `dir` is only set by `Discover`; `get` leaves the pool alone -/
 
 theorem serve_dir (st : St) (r : Req) : (serve st r).1.dir = st.dir ∧ (serve st r).1.pool = st.pool := by
-  rcases serve_cases st r with h | ⟨_, _, h⟩ | ⟨_, h⟩ | ⟨_, _, _, h⟩ <;> rw [h] <;> exact ⟨rfl, rfl⟩
+  rcases serve_cases st r with h | ⟨_, _, _, _, _, h⟩ | ⟨_, h⟩ | ⟨_, _, _, h⟩ <;> rw [h] <;> exact ⟨rfl, rfl⟩
 
 theorem fetchNonce_dir (st : St) (url : String) : (fetchNonce st url).1.dir = st.dir := by
   unfold fetchNonce
@@ -748,7 +748,7 @@ def isPost (r : Req) : Bool := r.method == .post
 
 theorem serve_cnt (f : Req → Bool) (st : St) (r : Req) :
     cnt f (serve st r).1.log ≤ cnt f st.log + (if f r then 1 else 0) := by
-  rcases serve_cases st r with h | ⟨_, _, h⟩ | ⟨_, h⟩ | ⟨_, _, _, h⟩ <;> rw [h] <;>
+  rcases serve_cases st r with h | ⟨_, _, _, _, _, h⟩ | ⟨_, h⟩ | ⟨_, _, _, h⟩ <;> rw [h] <;>
     simp only [cnt, requestsOf, List.filter_cons] <;> split <;> simp
 
 theorem fetchNonce_cnt (f : Req → Bool) (st : St) (url : String) :
@@ -981,6 +981,114 @@ theorem cancel_stops (cfg : Cfg) (c : Bool) (n : Nat) (st : St) (p : Resp) :
   · intro s hs r; simp [serve, hs]
 
 
+/-! ## context cancellation -/
+
+/-- **cancel_during_roundtrip.** A reply that is still outstanding when the caller's context is cancelled
+    yields the context error; the request had reached the server, the context is now cancelled. -/
+theorem cancel_during_roundtrip (st : St) (r : Req) (rest : List Reply)
+    (hc : st.cancelled = false) (hs : st.script = .cancel :: rest) :
+    serve st r = ({ st with log := .req r :: st.log, script := rest, cancelled := true }, .error .ctx) := by
+  simp [serve, hc, hs]
+
+theorem serve_cancelled (st : St) (r : Req) (hc : st.cancelled = true) : serve st r = (st, .error .ctx) := by
+  simp [serve, hc]
+
+theorem fetchNonce_cancelled (st : St) (url : String) (hc : st.cancelled = true) :
+    fetchNonce st url = (st, .error .ctx) := by
+  simp [fetchNonce, serve_cancelled st _ hc]
+
+theorem popNonce_cancelled (cfg : Cfg) (st : St) (url : String) (hc : st.cancelled = true) :
+    (popNonce cfg st url).1.cancelled = true ∧ (popNonce cfg st url).1.log = st.log ∧
+    (∀ e, (popNonce cfg st url).2 = .error e → e = .ctx) := by
+  unfold popNonce
+  split
+  · split
+    · simp [fetchNonce_cancelled st _ hc, hc]
+    · simp only [fetchNonce_cancelled st _ hc]
+      split <;> simp [fetchNonce_cancelled st _ hc, hc]
+  · simp [hc]
+
+theorem postStep_cancelled (cfg : Cfg) (resolve : St → St × Bool) (url : String) (ok : List Nat) (n : Nat) (st : St)
+    (hres : ∀ s, s.cancelled = true → (resolve s).1.cancelled = true ∧ (resolve s).1.log = s.log)
+    (hc : st.cancelled = true) :
+    (postStep cfg resolve url ok n st).2 = .done (.error .ctx) ∧
+    (postStep cfg resolve url ok n st).1.cancelled = true ∧ (postStep cfg resolve url ok n st).1.log = st.log := by
+  unfold postStep
+  have h0 := hres st hc
+  generalize resolve st = x at h0
+  obtain ⟨s0, k⟩ := x
+  simp only at h0 ⊢
+  have h1 := popNonce_cancelled cfg s0 url h0.1
+  generalize popNonce cfg s0 url = x at h1
+  obtain ⟨s1, r1⟩ := x
+  cases r1 with
+  | error e =>
+    simp only at h1 ⊢
+    rw [h1.2.2 e rfl]
+    exact ⟨rfl, h1.1, by rw [h1.2.1, h0.2]⟩
+  | ok v =>
+    simp only at h1 ⊢
+    rw [serve_cancelled s1 _ h1.1]
+    exact ⟨rfl, h1.1, by rw [h1.2.1, h0.2]⟩
+
+theorem postLoop_cancelled (cfg : Cfg) (resolve : St → St × Bool) (url : String) (ok : List Nat) (n : Nat) (st : St)
+    (hres : ∀ s, s.cancelled = true → (resolve s).1.cancelled = true ∧ (resolve s).1.log = s.log)
+    (hc : st.cancelled = true) :
+    (postLoop cfg resolve url ok n st).2 = .error .ctx ∧
+    (postLoop cfg resolve url ok n st).1.cancelled = true ∧ (postLoop cfg resolve url ok n st).1.log = st.log := by
+  rw [postLoop]
+  have h := postStep_cancelled cfg resolve url ok n st hres hc
+  generalize postStep cfg resolve url ok n st = x at h
+  obtain ⟨s, r⟩ := x
+  simp only at h
+  obtain ⟨h1, h2, h3⟩ := h
+  subst h1
+  exact ⟨rfl, h2, h3⟩
+
+theorem accountKID_cancelled (cfg : Cfg) (s : St) (hc : s.cancelled = true) :
+    (accountKID cfg s).1.cancelled = true ∧ (accountKID cfg s).1.log = s.log := by
+  unfold accountKID
+  split
+  · exact ⟨hc, rfl⟩
+  · have := postLoop_cancelled cfg resolveJWK acctURL [200] 0 s (fun s hs => ⟨hs, rfl⟩) hc
+    generalize postLoop cfg resolveJWK acctURL [200] 0 s = x at this
+    obtain ⟨s', r⟩ := x
+    simp only at this
+    obtain ⟨h1, h2, h3⟩ := this
+    subst h1
+    exact ⟨h2, h3⟩
+
+/-- **cancelled_post_returns_ctx.** Once the context is cancelled — during a round trip or while waiting
+    for a retry — every further `post` returns the context error at once and nothing more reaches the
+    server (a spare nonce may be taken from the pool, none is sent). -/
+theorem cancelled_post_returns_ctx (cfg : Cfg) (k : Bool) (url : String) (ok : List Nat) (st : St)
+    (hc : st.cancelled = true) :
+    (post cfg k url ok st).2 = .error .ctx ∧ (post cfg k url ok st).1.log = st.log ∧
+    (post cfg k url ok st).1.cancelled = true := by
+  unfold post
+  have := postLoop_cancelled cfg (if k = true then resolveJWK else accountKID cfg) url ok 0 st
+    (by cases k
+        · exact fun s hs => accountKID_cancelled cfg s hs
+        · exact fun s hs => ⟨hs, rfl⟩) hc
+  exact ⟨this.1, this.2.2, this.2.1⟩
+
+/-- **cancel_during_wait.** A context cancelled while `post` waits for its retry timer ends the loop
+    there: no retry is granted, the caller gets the error of the last reply (the code deliberately
+    prefers it to the context error), and the cancellation is remembered. -/
+theorem cancel_during_wait (cfg : Cfg) (c : Bool) (n : Nat) (st : St) (p : Resp)
+    (hfatal : (!(c && isBadNonce p.prob) && !isRetriable p.status) = false)
+    (hcancel : st.boCalls + 1 = cfg.cancelAt) :
+    (afterReply cfg c n st p).2 = .done (.error (.status p.status p.prob)) ∧
+    (afterReply cfg c n st p).1.cancelled = true := by
+  unfold afterReply
+  simp only [hfatal, Bool.false_eq_true, if_false]
+  have hb : ∀ s : St, s.boCalls = st.boCalls → (backoff cfg s (n + 1)).2 = false ∧ (backoff cfg s (n + 1)).1.cancelled = true := by
+    intro s hs
+    simp [backoff, hs, hcancel]
+  have := hb (if (c && isBadNonce p.prob) = true then { st with pool := [] } else st) (by split <;> rfl)
+  rw [this.1]
+  exact ⟨by simp, this.2⟩
+
 /-! ## what the caller gets is what the server said last -/
 
 /-- the result of a call corresponds to the most recent response on the wire -/
@@ -992,11 +1100,20 @@ def LastIs (l : List Ev) : Except Err Resp → Prop
 
 theorem serve_last (st : St) (r : Req) (p : Resp) (h : (serve st r).2 = .ok p) :
     (serve st r).1.log.head? = some (.rep p) := by
-  rcases serve_cases st r with e | ⟨_, _, e⟩ | ⟨_, e⟩ | ⟨_, _, _, e⟩ <;> rw [e] at h ⊢ <;> simp_all
+  rcases serve_cases st r with e | ⟨_, _, _, _, _, e⟩ | ⟨_, e⟩ | ⟨_, _, _, e⟩ <;> rw [e] at h ⊢ <;> simp_all
 
 theorem serve_err (st : St) (r : Req) (e : Err) (h : (serve st r).2 = .error e) :
     e = .ctx ∨ e = .transport := by
-  rcases serve_cases st r with x | ⟨_, _, x⟩ | ⟨_, x⟩ | ⟨_, _, _, x⟩ <;> rw [x] at h <;> simp_all
+  rcases serve_cases st r with x | ⟨_, _, e', _, he, x⟩ | ⟨_, x⟩ | ⟨_, _, _, x⟩
+  · rw [x] at h; simp_all
+  · rw [x] at h
+    simp only [Except.error.injEq] at h
+    subst h
+    rcases he with rfl | rfl
+    · exact Or.inr rfl
+    · exact Or.inl rfl
+  · rw [x] at h; simp at h
+  · rw [x] at h; simp at h
 
 theorem LastIs_serve_err (l : List Ev) (e : Err) (h : e = .ctx ∨ e = .transport) : LastIs l (.error e) := by
   rcases h with rfl | rfl <;> trivial
